@@ -202,6 +202,51 @@ pub fn run(ctx: &Ctx) -> (Stats, Report) {
     st.exhaustive_sections.push(format!("every string of length 0..={plen} over the picture alphabet as a picture x {} fixed inputs, all entry points of all six types", fixed_inputs.len()));
     st.section("all_short_pictures", &mut mark);
 
+    // 1a': the same short strings placed after / before k one-character tokens, k around the
+    // 36-token limit: a token that expands into several fields, or a counter that is checked once per
+    // token, only misbehaves when the field buffer is nearly full
+    {
+        let slen = if ctx.thorough { 3 } else { 2 };
+        let fillers: [&[u8]; 2] = [b"-", b"-:/.,;"];
+        let ks: Vec<usize> = (28..=38).collect();
+        let mut shorts: Vec<String> = vec![];
+        for len in 0..=slen {
+            for idx in 0..(alpha_ref.len() as u64).pow(len as u32) {
+                shorts.push(nth_over(&alpha_ref, idx, len));
+            }
+        }
+        let total = (shorts.len() * ks.len() * 4) as u64;
+        let (shorts, ks) = (&shorts, &ks);
+        let s = par_sweep(total, 64, |range, st| {
+            for idx in range {
+                let sh = &shorts[idx as usize / (ks.len() * 4)];
+                let k = ks[(idx as usize / 4) % ks.len()];
+                let f = fillers[idx as usize % 2];
+                let fill: String = (0..k).map(|j| f[j % f.len()] as char).collect();
+                let pic = if (idx / 2) % 2 == 0 { format!("{fill}{sh}") } else { format!("{sh}{fill}") };
+                let compiled = tokenize(&pic).is_some();
+                for text in ["", "2021-12-31 23:59:59.123456"] {
+                    match check_text(&pic, text) {
+                        Ok(n) => {
+                            st.evaluations += n as u64;
+                            if compiled {
+                                st.nontrivial_enum += 1;
+                                st.class("short-picture-next-to-a-nearly-full-token-buffer-compiles");
+                            }
+                        }
+                        Err(m) => {
+                            st.fail(idx, Case::new(P, "text", vec![], vec![pic.clone(), text.to_string()]), m);
+                            return;
+                        }
+                    }
+                }
+            }
+        });
+        st.merge(s);
+        st.exhaustive_sections.push(format!("every string of length 0..={slen} over the picture alphabet before and after 28..=38 one-character tokens (two fillers)"));
+    }
+    st.section("short_pictures_at_the_token_limit", &mut mark);
+
     // 1b: every short string over the input alphabet as an input, against fixed pictures
     let ilen = if ctx.thorough { 4 } else { 3 };
     for len in 0..=ilen {
@@ -587,7 +632,7 @@ pub fn run(ctx: &Ctx) -> (Stats, Report) {
     st.section("operation_table_extreme_operands", &mut mark);
 
     let rep = Report {
-        rule: format!("Oracle: catch_unwind - every call returns (a value or an Error). (1) every string up to length {plen} over the picture alphabet as a picture x fixed inputs, and every string up to length {ilen} over a {}-symbol input alphabet (digits, signs, punctuation, letters, tab, newline, NUL, multi-byte characters) as an input x {} fixed pictures, through Formatter::try_new, T::parse, Formatter::parse of all six types and format of 14 boundary values into a String sink (an inapplicable field must surface as Err from the sink, not a panic) and into a re-entrant sink that formats another library value on every chunk it receives; (2) proptest grammar pictures of 0..=40 tokens with blank runs up to 600 and random letter case x inputs obtained by formatting a pool value and applying 0..3 mutations (replace / insert / delete / duplicate a character, splice a digit run, a sign, a multi-byte character, control whitespace, truncate); (2b) blank / digit runs of length 2^k-1, 2^k, 2^k+1 (k = 8..20) and long texts / pictures (filler of every length 0..=1100, 6000 in thorough) with a 2-, 3- or 4-byte character across every byte offset, after a valid prefix with a wrong or right separator, and nine bracketing syntaxes (quotes, brackets, braces, escapes) around ASCII / multi-byte contents of every length 0..=40; (3) every row of the {}-row operation table x pool values x extreme scalars (i32::MIN, u32::MAX, NaN, infinities, subnormals, 1e300) and proptest-generated scalars. Run under the release profile and under a profile with overflow checks and debug assertions. Non-trivial = the picture compiles and the input is non-empty, or a row with an extreme scalar operand.", INPUT_ALPHABET.len(), FIXED_PICTURES.len(), ops.len()),
+        rule: format!("Oracle: catch_unwind - every call returns (a value or an Error). (1) every string up to length {plen} over the picture alphabet as a picture x fixed inputs, and every string up to length {ilen} over a {}-symbol input alphabet (digits, signs, punctuation, letters, tab, newline, NUL, multi-byte characters) as an input x {} fixed pictures, through Formatter::try_new, T::parse, Formatter::parse of all six types and format of 14 boundary values into a String sink (an inapplicable field must surface as Err from the sink, not a panic) and into a re-entrant sink that formats another library value on every chunk it receives; (1c) every string up to length 2 (3 in thorough) over the picture alphabet before and after 28..=38 one-character tokens; (2) proptest grammar pictures of 0..=40 tokens with blank runs up to 600 and random letter case x inputs obtained by formatting a pool value and applying 0..3 mutations (replace / insert / delete / duplicate a character, splice a digit run, a sign, a multi-byte character, control whitespace, truncate); (2b) blank / digit runs of length 2^k-1, 2^k, 2^k+1 (k = 8..20) and long texts / pictures (filler of every length 0..=1100, 6000 in thorough) with a 2-, 3- or 4-byte character across every byte offset, after a valid prefix with a wrong or right separator, and nine bracketing syntaxes (quotes, brackets, braces, escapes) around ASCII / multi-byte contents of every length 0..=40; (3) every row of the {}-row operation table x pool values x extreme scalars (i32::MIN, u32::MAX, NaN, infinities, subnormals, 1e300) and proptest-generated scalars. Run under the release profile and under a profile with overflow checks and debug assertions. Non-trivial = the picture compiles and the input is non-empty, or a row with an extreme scalar operand.", INPUT_ALPHABET.len(), FIXED_PICTURES.len(), ops.len()),
         assumptions: vec![
             "unsafe fns and the documented-to-panic WeekDay::from(usize) / Month::from(usize) are outside the quantifier".into(),
             "formatting is observed through write!(&mut String, ..); ToString::to_string() on a Display that reports an error panics inside std by std's contract and is never called".into(),
